@@ -201,7 +201,7 @@ struct Run {
 		bool relevant = false;
 		switch (oracle) {
 		case 1: relevant = k == K_DISPATCH || k == K_KILL || k == K_RUNATOMIC; break;
-		case 2: relevant = k == K_TIMEOUT || k == K_META || (k == K_DISPATCH && timer_related); break;
+		case 2: relevant = k == K_TIMEOUT || k == K_META || ((k == K_DISPATCH || k == K_KILL) && timer_related); break; // a kill of a sleeper must cancel its timeout
 		case 3: relevant = k == K_WAKEUP; break;
 		default: relevant = true;
 		}
